@@ -1,28 +1,44 @@
 /- Helper lemmas for KlogV/Props/GoTxt.lean (the translated line / block layer computes the model's lines and blocks). Core Lean only. -/
 import KlogV.GoSem.AbsTxt
+import KlogV.Lemmas.GoTxt9
 namespace KlogV.GoL
 open KlogV.Go
 
 theorem newLineFromString_eq (raw : Bytes) (hlen : (raw.length : Int) < 9223372036854775808) : GoTxt.NewLineFromString raw = .ok (Line.ofRaw raw).toGo := by
-  sorry
+  exact T.newLineFromString_eq raw hlen
 
 theorem line_original_eq (l : Line) : l.toGo.Original = .ok l.original := by
-  sorry
+  rfl
 
 theorem line_isBlank_eq (l : Line) : l.toGo.IsBlank = .ok l.isBlank := by
-  sorry
+  exact T.line_isBlank_eq l
 
 theorem parseBlock_eq (t : Bytes) (n : Int) (hlen : (t.length : Int) < 9223372036854775808) : GoTxt.ParseBlock t n = .ok (firstBlock t n) := by
-  sorry
+  exact T.parseBlock_eq t n hlen
 
 theorem blocksOf_drop (t : Bytes) (b : List Line) (bs : List (List Line)) (h : blocksOf t = b :: bs) :
     blocksOf (t.drop (countBytes b)) = bs := by
-  sorry
+  unfold countBytes
+  by_cases hbs : bs = []
+  · subst hbs
+    have hf := blocksOfLines_flatten (splitLines t) (by
+      show blocksOf t ≠ []
+      rw [h]; simp)
+    have h' : blocksOfLines (splitLines t) = [b] := h
+    rw [h'] at hf
+    simp only [List.flatten_cons, List.flatten_nil, List.append_nil] at hf
+    rw [hf, joinLines_splitLines]
+    simp only [List.drop_length]
+    rfl
+  · obtain ⟨R2, e1, _, _, _, _, e6, _⟩ := blocksOf_decomp t b bs h hbs
+    rw [e1, List.drop_left]
+    exact e6
 
 theorem significantLines_eq (b : List Line) (n : Int) (h : b.any (fun l => !l.isBlank) = true)
     (hlen : (b.length : Int) < 9223372036854775808) :
     (⟨n, b.map Line.toGo⟩ : GoTxt.block).SignificantLines =
       .ok ((significant b).1.map Line.toGo, ((significant b).2.1 : Int), ((significant b).2.2 : Int)) := by
-  sorry
+  exact T.significantLines_eq b n h hlen
 
 end KlogV.GoL
+
